@@ -11,6 +11,7 @@ import (
 	"fmt"
 	"math/rand"
 	"os"
+	"time"
 
 	"github.com/paulmach/osm"
 	"github.com/paulmach/osm/annotate"
@@ -38,6 +39,9 @@ type dsEntry struct {
 	Status int // 0 history, 1 not found (nil slice in the map), 2 other error
 	Code   int64
 	Hist   []el
+	// DelayMS is the latency of this lookup in the in-memory data source (not sent to Coq:
+	// the property does not depend on it).
+	DelayMS int
 }
 
 type sectionT [3][]el
@@ -55,22 +59,32 @@ func (e *otherErr) Error() string { return fmt.Sprintf("datasource failure %d", 
 
 type ds struct {
 	*osm.HistoryDatasource
-	errs map[[2]int64]error
+	errs  map[[2]int64]error
+	delay map[[2]int64]time.Duration
+}
+
+func (d *ds) wait(k, id int64) {
+	if t := d.delay[[2]int64{k, id}]; t > 0 {
+		time.Sleep(t)
+	}
 }
 
 func (d *ds) NodeHistory(ctx context.Context, id osm.NodeID) (osm.Nodes, error) {
+	d.wait(0, int64(id))
 	if e := d.errs[[2]int64{0, int64(id)}]; e != nil {
 		return nil, e
 	}
 	return d.HistoryDatasource.NodeHistory(ctx, id)
 }
 func (d *ds) WayHistory(ctx context.Context, id osm.WayID) (osm.Ways, error) {
+	d.wait(1, int64(id))
 	if e := d.errs[[2]int64{1, int64(id)}]; e != nil {
 		return nil, e
 	}
 	return d.HistoryDatasource.WayHistory(ctx, id)
 }
 func (d *ds) RelationHistory(ctx context.Context, id osm.RelationID) (osm.Relations, error) {
+	d.wait(2, int64(id))
 	if e := d.errs[[2]int64{2, int64(id)}]; e != nil {
 		return nil, e
 	}
@@ -136,8 +150,11 @@ type obsT struct {
 
 func run(in *caseIn) obsT {
 	h := &osm.HistoryDatasource{}
-	d := &ds{HistoryDatasource: h, errs: map[[2]int64]error{}}
+	d := &ds{HistoryDatasource: h, errs: map[[2]int64]error{}, delay: map[[2]int64]time.Duration{}}
 	for _, e := range in.DS {
+		if e.DelayMS > 0 {
+			d.delay[[2]int64{int64(e.Kind), e.ID}] = time.Duration(e.DelayMS) * time.Millisecond
+		}
 		switch e.Status {
 		case 2:
 			d.errs[[2]int64{int64(e.Kind), e.ID}] = &otherErr{e.Code}
@@ -277,7 +294,7 @@ func mkCase(in *caseIn, mut func(*obsT)) *wire.Case {
 			vs = append(vs, map[string]interface{}{"version": x.Version, "visible": x.Visible, "payload": x.Pay})
 		}
 		dds = append(dds, map[string]interface{}{"kind": kindName[e.Kind], "id": e.ID,
-			"status": []string{"history", "not-found", "other-error"}[e.Status], "code": e.Code, "history": vs})
+			"status": []string{"history", "not-found", "other-error"}[e.Status], "code": e.Code, "history": vs, "lookup_delay_ms": e.DelayMS})
 	}
 	dsec := map[string]interface{}{}
 	for si, s := range in.Sections {
@@ -472,18 +489,151 @@ func (g *gen) repair(in *caseIn) {
 	}
 }
 
+// genLarge: one section holds 16-40 elements of one kind (the size at which an implementation
+// might batch or parallelise look-ups), and the data source answers with uneven latency: the
+// first elements of the section are the slowest.  Order of actions must still be input order.
+func (g *gen) genLarge() *caseIn {
+	in := &caseIn{Ign: g.rng.Intn(3)}
+	k := g.rng.Intn(3)
+	if g.rng.Intn(2) == 0 {
+		k = 0
+	}
+	si := 1 + g.rng.Intn(2)
+	n := 16 + g.rng.Intn(25)
+	s := &sectionT{}
+	perm := g.rng.Perm(400)
+	slow := 2 + g.rng.Intn(3)
+	for i := 0; i < n; i++ {
+		id := int64(1 + perm[i])
+		v := 2 + g.rng.Intn(4)
+		s[k] = append(s[k], el{k, id, v, g.rng.Intn(2) == 0, g.nextPay()})
+		h := dsEntry{Kind: k, ID: id}
+		for _, hv := range []int{v - 1 - g.rng.Intn(2), v + g.rng.Intn(2)} {
+			if hv >= 0 && g.rng.Intn(5) != 0 {
+				h.Hist = append(h.Hist, el{k, id, hv, true, g.nextPay()})
+			}
+		}
+		if len(h.Hist) == 0 || in.Ign != 2 {
+			h.Hist = append(h.Hist, el{k, id, v - 1, true, g.nextPay()})
+		}
+		if i < slow {
+			h.DelayMS = slow - i // earlier elements answer later
+		}
+		in.DS = append(in.DS, h)
+	}
+	in.Sections[si] = s
+	// a few elements of the other kinds / sections around it
+	for x := 0; x < g.rng.Intn(3); x++ {
+		k2, si2 := g.rng.Intn(3), g.rng.Intn(3)
+		if in.Sections[si2] == nil {
+			in.Sections[si2] = &sectionT{}
+		}
+		id := int64(1000 + g.rng.Intn(1000)*3 + k2)
+		v := 1 + g.rng.Intn(3)
+		in.Sections[si2][k2] = append(in.Sections[si2][k2], el{k2, id, v, true, g.nextPay()})
+		in.DS = append(in.DS, dsEntry{Kind: k2, ID: id, Hist: []el{{k2, id, v - 1, true, g.nextPay()}}})
+	}
+	return in
+}
+
+// genRepeated: the same element occurs several times in one change (modified twice, modified and
+// then deleted, ...) with increasing versions; each occurrence has its own predecessor.
+func (g *gen) genRepeated() *caseIn {
+	in := &caseIn{Ign: g.rng.Intn(3)}
+	for si := 1; si < 3; si++ {
+		in.Sections[si] = &sectionT{}
+	}
+	nids := 1 + g.rng.Intn(3)
+	for x := 0; x < nids; x++ {
+		k := g.rng.Intn(3)
+		id := int64(10 + x)
+		occ := 2 + g.rng.Intn(3)
+		v := 1 + g.rng.Intn(2)
+		var vs []int
+		for i := 0; i < occ; i++ {
+			vs = append(vs, v)
+			v += 1 + g.rng.Intn(3)
+		}
+		// sections: non-decreasing (modify ... then delete), several shapes
+		cut := g.rng.Intn(occ + 1) // occurrences [0,cut) in modify, the rest in delete
+		for i, ov := range vs {
+			si := 1
+			if i >= cut {
+				si = 2
+			}
+			in.Sections[si][k] = append(in.Sections[si][k], el{k, id, ov, g.rng.Intn(2) == 0, g.nextPay()})
+		}
+		// history: most versions up to the last one, including the uploaded ones themselves
+		h := dsEntry{Kind: k, ID: id}
+		for hv := 0; hv <= v; hv++ {
+			if g.rng.Intn(4) != 0 {
+				h.Hist = append(h.Hist, el{k, id, hv, g.rng.Intn(4) != 0, g.nextPay()})
+			}
+		}
+		if in.Ign != 2 && (len(h.Hist) == 0 || h.Hist[0].Version >= vs[0]) {
+			h.Hist = append([]el{{k, id, vs[0] - 1, true, g.nextPay()}}, h.Hist...)
+		}
+		if g.rng.Intn(3) == 0 {
+			g.rng.Shuffle(len(h.Hist), func(i, j int) { h.Hist[i], h.Hist[j] = h.Hist[j], h.Hist[i] })
+		}
+		if len(h.Hist) == 0 {
+			h.Hist = []el{}
+		}
+		in.DS = append(in.DS, h)
+	}
+	// unrelated single elements mixed in
+	for x := 0; x < g.rng.Intn(3); x++ {
+		k2, si2 := g.rng.Intn(3), 1+g.rng.Intn(2)
+		id := int64(500 + x)
+		v := 1 + g.rng.Intn(3)
+		in.Sections[si2][k2] = append(in.Sections[si2][k2], el{k2, id, v, true, g.nextPay()})
+		in.DS = append(in.DS, dsEntry{Kind: k2, ID: id, Hist: []el{{k2, id, v - 1, true, g.nextPay()}}})
+	}
+	for si := 1; si < 3; si++ { // interleave the occurrences of different ids, keeping each id's order
+		for k := 0; k < 3; k++ {
+			in.Sections[si][k] = interleaveByID(g.rng, in.Sections[si][k])
+		}
+	}
+	return in
+}
+
+func interleaveByID(rng *rand.Rand, l []el) []el {
+	by := map[int64][]el{}
+	var keys []int64
+	for _, e := range l {
+		if _, ok := by[e.ID]; !ok {
+			keys = append(keys, e.ID)
+		}
+		by[e.ID] = append(by[e.ID], e)
+	}
+	var out []el
+	for len(keys) > 0 {
+		i := rng.Intn(len(keys))
+		q := by[keys[i]]
+		out = append(out, q[0])
+		if len(q) == 1 {
+			keys = append(keys[:i], keys[i+1:]...)
+		} else {
+			by[keys[i]] = q[1:]
+		}
+	}
+	return out
+}
+
 func main() {
 	a := wire.ParseArgs()
 	rng := wire.Rng(a.Seed)
 	w := wire.NewWriter("C13", a.Seed, a.Tier)
 	g := &gen{rng: rng, w: w, pay: 1000}
-	w.Rule = "osmChange with 0-4 nodes/ways/relations per create/modify/delete section (sections sometimes nil), histories per element: absent, nil slice, empty, other data-source error, 1-6 entries unsorted/ascending/descending with gaps, version 0, later versions, duplicates of the new version and of each other, nothing below; option none / IgnoreMissingChildren(false) / (true); every object carries a distinct payload (changeset id). Single-element changes exercise the predecessor search alone. distinct = distinct token streams; trivial = empty change. History versions are >= 0 (the domain of the property; OSM versions start at 1)."
-	nChange, nSingle := 420, 380
+	w.Rule = "osmChange with 0-4 nodes/ways/relations per create/modify/delete section (sections sometimes nil), histories per element: absent, nil slice, empty, other data-source error, 1-6 entries unsorted/ascending/descending with gaps, version 0, later versions, duplicates of the new version and of each other, nothing below; option none / IgnoreMissingChildren(false) / (true); every object carries a distinct payload (changeset id). Single-element changes exercise the predecessor search alone; large cases put 16-40 elements of one kind in a section and give the data source uneven per-id latency (first elements slowest: order must not depend on it); repeated cases let the same element occur 2-4 times across/within modify and delete with increasing versions (each occurrence has its own predecessor). distinct = distinct token streams; trivial = empty change. History versions are >= 0 (the domain of the property; OSM versions start at 1)."
+	nChange, nSingle, nLarge, nRepeat := 380, 340, 40, 160
 	if a.Tier == "thorough" {
-		nChange, nSingle = 8000, 8000
+		nChange, nSingle, nLarge, nRepeat = 8000, 8000, 400, 4000
 	}
 	nChange = int(float64(nChange) * a.Scale)
 	nSingle = int(float64(nSingle) * a.Scale)
+	nLarge = int(float64(nLarge) * a.Scale)
+	nRepeat = int(float64(nRepeat) * a.Scale)
 
 	// fixed corpus
 	{
@@ -516,6 +666,39 @@ func main() {
 			w.Add(c)
 		}
 	}
+	{
+		// the same way modified (v3) and then deleted (v4): the old states are v2 and v3
+		in := &caseIn{}
+		in.Sections[1] = &sectionT{nil, {{1, 5, 3, true, g.nextPay()}}, nil}
+		in.Sections[2] = &sectionT{nil, {{1, 5, 4, true, g.nextPay()}}, nil}
+		in.DS = []dsEntry{{Kind: 1, ID: 5, Hist: []el{{1, 5, 1, true, g.nextPay()}, {1, 5, 2, true, g.nextPay()}, {1, 5, 3, true, g.nextPay()}}}}
+		c := mkCase(in, nil)
+		c.Class = "corpus"
+		w.Add(c)
+		// the same way modified twice in one section
+		in = &caseIn{}
+		in.Sections[1] = &sectionT{nil, {{1, 5, 2, true, g.nextPay()}, {1, 5, 6, true, g.nextPay()}}, nil}
+		in.DS = []dsEntry{{Kind: 1, ID: 5, Hist: []el{{1, 5, 1, true, g.nextPay()}, {1, 5, 5, true, g.nextPay()}}}}
+		c = mkCase(in, nil)
+		c.Class = "corpus"
+		w.Add(c)
+		// 16 nodes in one section, the first ones answering last
+		in = &caseIn{}
+		s := &sectionT{}
+		for i := 0; i < 16; i++ {
+			id := int64(1 + i)
+			s[0] = append(s[0], el{0, id, 2, true, g.nextPay()})
+			h := dsEntry{Kind: 0, ID: id, Hist: []el{{0, id, 1, true, g.nextPay()}}}
+			if i < 3 {
+				h.DelayMS = 3 - i
+			}
+			in.DS = append(in.DS, h)
+		}
+		in.Sections[1] = s
+		c = mkCase(in, nil)
+		c.Class = "corpus"
+		w.Add(c)
+	}
 	for i := 0; i < nChange; i++ {
 		in := g.genCase(4)
 		c := mkCase(in, nil)
@@ -541,6 +724,17 @@ func main() {
 		in.DS = []dsEntry{h}
 		c := mkCase(in, nil)
 		c.Class = "single"
+		w.Add(c)
+	}
+
+	for i := 0; i < nLarge; i++ {
+		c := mkCase(g.genLarge(), nil)
+		c.Class = "large-section-uneven-latency"
+		w.Add(c)
+	}
+	for i := 0; i < nRepeat; i++ {
+		c := mkCase(g.genRepeated(), nil)
+		c.Class = "repeated-element"
 		w.Add(c)
 	}
 
